@@ -18,7 +18,7 @@ ASSUMPTIONS = [
 
 def run(tier, seed):
     rng = random.Random(seed)
-    n = int(os.environ.get("VERIF_N", 0)) or (55 if tier == "quick" else 250)
+    n = int(os.environ.get("VERIF_N", 0)) or (55 if tier == "quick" else 1500)
     k_pres = 4 if tier == "quick" else 8
     violations = []
     nonrec = {k: [] for k in C01.CF}; nonrec_meta = {k: [] for k in C01.CF}
